@@ -104,8 +104,10 @@ GenStamps ==
   IN {s \in one \cup corners : ValidStamp(s)}
 
 \* characters whose ASCII code is their GSM 7-bit default alphabet code
-SharedAlphabet == {10, 13} \cup (32..35) \cup (37..63) \cup (65..90) \cup (97..122)
+SharedAlphabet == AsciiGsmSame
 SharedSeq == <<122, 63, 85, 42, 32, 97, 90, 48, 57, 35, 37, 10, 13, 65, 46, 33, 47, 58, 109, 77>>
+CtlSeq == <<1, 2, 3, 4, 5, 6, 7, 8, 9, 11, 12, 14, 15, 16, 17, 18, 19, 20, 21, 22, 23, 24, 25, 26, 27, 28, 29, 30, 31, 127, 0>>
+OtherSeq == <<36, 64, 95>>
 NamePattern(p, n) ==
   CASE p = "z" -> [i \in 1..n |-> 122]
     [] p = "alt" -> [i \in 1..n |-> IF i % 2 = 1 THEN 85 ELSE 42]
@@ -113,7 +115,19 @@ NamePattern(p, n) ==
     [] p = "count" -> [i \in 1..n |-> SharedSeq[((i - 1) % Len(SharedSeq)) + 1]]
     [] p = "sp" -> [i \in 1..n |-> 32]
     [] p = "onehot" -> [i \in 1..n |-> IF i % 8 = n % 8 THEN 122 ELSE 32]
-NamePatterns == {"z", "alt", "alt2", "count", "sp", "onehot"}
+    \* characters outside the alphabet ASCII and GSM 7-bit share (see NameOKAny): code 0 at the end (one, two, three times),
+    \* at the start, alone, in every position of a text; the other codes without a stated value; the three characters
+    \* that have another code in the basic table
+    [] p = "nul1" -> [i \in 1..n |-> IF i = n THEN 0 ELSE SharedSeq[((i - 1) % Len(SharedSeq)) + 1]]
+    [] p = "nul2" -> [i \in 1..n |-> IF i >= n - 1 THEN 0 ELSE SharedSeq[((i - 1) % Len(SharedSeq)) + 1]]
+    [] p = "nul3" -> [i \in 1..n |-> IF i >= n - 2 THEN 0 ELSE 122]
+    [] p = "nul0" -> [i \in 1..n |-> IF i = 1 THEN 0 ELSE SharedSeq[((i - 1) % Len(SharedSeq)) + 1]]
+    [] p = "nulall" -> [i \in 1..n |-> 0]
+    [] p = "nulalt" -> [i \in 1..n |-> IF i % 2 = n % 2 THEN 0 ELSE 85]
+    [] p = "ctl" -> [i \in 1..n |-> IF i % 3 = n % 3 THEN CtlSeq[((i + n) % Len(CtlSeq)) + 1] ELSE 97]
+    [] p = "delend" -> [i \in 1..n |-> IF i = n THEN 127 ELSE 48]
+    [] p = "other" -> [i \in 1..n |-> IF i % 2 = n % 2 THEN OtherSeq[((i + n) % 3) + 1] ELSE 65]
+NamePatterns == {"z", "alt", "alt2", "count", "sp", "onehot", "nul1", "nul2", "nul3", "nul0", "nulall", "nulalt", "ctl", "delend", "other"}
 MaxGenName == 64
 
 GenCases ==
@@ -140,5 +154,7 @@ GenSane ==
     [] job.op = "TZ" -> ZoneLaw(job.q, job.dst)
     [] job.op = "TZDec" -> ZoneValid(job.o)
     [] job.op = "UT" -> ValidStamp(job.st) /\ StampLaw(job.st)
-    [] job.op = "Name" -> (\A i \in 1..Len(job.name) : job.name[i] \in SharedAlphabet) /\ NameLaw(job.name)
+    [] job.op = "Name" -> (\A i \in 1..Len(job.name) : job.name[i] \in SharedAlphabet \cup NoStatedValue \cup DOMAIN AsciiToGsmOther)
+                         /\ NameLaw(job.name) /\ NameOKAny(job.name, NameContents(job.name))
+                         /\ ((\A i \in 1..Len(job.name) : job.name[i] \in SharedAlphabet) => NameOK(job.name, NameContents(job.name)))
 =============================================================================
